@@ -9,6 +9,11 @@ E2 bounded enumeration on the real Element / Substance / Material classes.
              {1e22, 2.5e19, 1e10 cm-3} written in {cm-3, m-3};
   volume     none, or {1, 2.5 l} written in {l, cm3, m3};  isotope mode natural / most abundant.
 
+  history    E1 exploration on LIVE composites carrying a density: Substance H2O and Material by number / mass
+             fractions (string and dictionary input) x given {rho, n} x volume {none, 2.5 l} x both isotope modes x
+             every sequence of 1..2 (thorough 3) add() calls from {existing first, existing last, new component},
+             unpruned; after the last step O1-O5 must hold for the final amounts (reference: a dict).
+
 Oracle (statement only; m_i = component mass the object reports itself, amounts a_i = what the caller gave):
   O1  the given density is reported back unchanged (it is the one "attached");
   O2  rho = n * M_formula with M_formula = sum a_i m_i            (number-type composites)
@@ -32,7 +37,8 @@ PROPERTY = "C12"
 LEVEL = "exploration"
 RULE = ("a case is one (composite, input form, isotope mode, given density kind/value/unit, volume value/unit); all "
         "distinct by construction; every case is non-trivial (a density is always attached); cases written in a "
-        "non-canonical unit are additionally compared with the canonical spelling of the same physical input")
+        "non-canonical unit are additionally compared with the canonical spelling of the same physical input; "
+        "history: every (start composite, isotope mode, given density, volume, add() sequence), none pruned")
 ASSUMPTIONS = [
     "component masses are those the object reports (C10); the Dalton in grams is read from the unit table row 'Da'",
     "unit spellings are related by exact decimal factors (kg/m3 = 1e-3 g/cm3, kg/l = g/cm3, m-3 = 1e-6 cm-3, "
@@ -67,6 +73,19 @@ COMPOSITES = {
     "material:mass:dict3": ("Material", "dict", {"N2": 75.5, "O2": 23.2, "Ar": 1.3},
                             {"N2": 75.5, "O2": 23.2, "Ar": 1.3}, "mass"),
 }
+
+# operation histories on live composites that carry a density (E1): every sequence of 1..HDEPTH add() calls; the
+# operators + and * return a new composite WITHOUT the density (nothing of this statement can be observed on it),
+# so only the in-place add() belongs to this property
+HIST_STARTS = ["substance:H2O:str", "substance:H2O:dict", "material:number:str", "material:number:dict",
+               "material:mass:str", "material:mass:dict"]
+HIST_OPS = {
+    "Substance": [["add", "H", 2], ["add", "O", 1], ["add", "C", 1]],
+    "Material": [["add", "H2O", 0.5], ["add", "NaCl", 0.1], ["add", "KCl", 0.1]],
+}
+HIST_GIVEN = [("rho", 0.997), ("n", 1e22)]
+HIST_VOLUMES = [None, 2.5]
+HDEPTH = dict(quick=2, thorough=3)
 
 _DA = None
 
@@ -107,9 +126,10 @@ def _build(cid, natural, kind, value, unit, vol, vunit):
                     norm_type=Norm.NUMBER_FRACTION if mode == "number" else Norm.MASS_FRACTION, **kw)
 
 
-def _observe(cid, obj, has_vol):
+def _observe(cid, obj, has_vol, amounts=None):
     """all numbers the statement talks about, as plain floats in g/cm3, cm-3, g, Da"""
-    cls, form, arg, amounts, mode = COMPOSITES[cid]
+    cls, form, arg, amounts0, mode = COMPOSITES[cid]
+    amounts = amounts0 if amounts is None else amounts
     keys = list(amounts)
     obs = dict(rho=float(obj.mass_density.value("g/cm3")), n=float(obj.number_density.value("cm-3")))
     if has_vol:
@@ -131,9 +151,10 @@ def _observe(cid, obj, has_vol):
     return obs
 
 
-def _relations(cid, kind, value, vol, obs):
+def _relations(cid, kind, value, vol, obs, amounts=None):
     """first violated relation as (behaviour, expected, observed) or None"""
-    cls, form, arg, amounts, mode = COMPOSITES[cid]
+    cls, form, arg, amounts0, mode = COMPOSITES[cid]
+    amounts = amounts0 if amounts is None else amounts
     a = [amounts[k] for k in amounts]
     m = obs["m"]
     tol = 1e-10
@@ -218,6 +239,29 @@ def check_case(cid, natural, kind, value, unit, vol, vunit):
     return None
 
 
+def check_history(cid, natural, kind, value, vol, history):
+    """add() calls on a live composite with a density attached; all relations must hold for the final amounts"""
+    cls, form, arg, amounts0, mode = COMPOSITES[cid]
+    case = dict(composite=cid, natural=natural, kind=kind, value=value, volume=vol, history=history)
+    amounts = R.model_run(amounts0, history)
+    tags = R.history_tags(amounts0, history) + ["class:" + cls, "input:" + form, "mode:" + mode, "given:" + kind,
+                                                "natural" if natural else "abundant",
+                                                "volume:" + ("l" if vol is not None else "none")]
+
+    def run():
+        obj = _build(cid, natural, kind, value, "g/cm3" if kind == "rho" else "cm-3", vol,
+                     "l" if vol is not None else None)
+        obj = R.real_run(obj, history, None, cls == "Material")
+        return _observe(cid, obj, vol is not None, amounts)
+    o = outcome(run)
+    if o[0] == "err":
+        return failure("history", case, "history executed and tabulated", list(o), tags, "raises:" + o[1]), amounts
+    bad = _relations(cid, kind, value, vol, o[1], amounts)
+    if bad:
+        return failure("history", case, bad[1], bad[2], tags, bad[0]), amounts
+    return None, amounts
+
+
 def _cases(cid, natural):
     for kind, values, units in (("rho", RHO_VALUES, RHO_UNITS), ("n", N_VALUES, N_UNITS)):
         for value in values:
@@ -228,12 +272,38 @@ def _cases(cid, natural):
 
 
 def plan(tier, seed):
-    return [(cid, nat) for cid in COMPOSITES for nat in (True, False)]
+    shards = [("static", cid, nat) for cid in COMPOSITES for nat in (True, False)]
+    for cid in HIST_STARTS:
+        for nat in (True, False):
+            for kind, value in HIST_GIVEN:
+                shards.append(("history", cid, nat, kind, value, HDEPTH[tier]))
+    return shards
 
 
 def run_shard(desc):
     sh = Shard(PROPERTY)
-    cid, nat = desc
+    if desc[0] == "history":
+        _, cid, nat, kind, value, depth = desc
+        cls, _, _, amounts0, _ = COMPOSITES[cid]
+        for vol in HIST_VOLUMES:
+            for h in R.histories(HIST_OPS[cls], depth):
+                bad, amounts = check_history(cid, nat, kind, value, vol, h)
+                sh.evaluations += 1
+                sh.nontrivial += 1
+                sh.transitions += len(h)
+                sh.traces += 1
+                sh.add_to_set("hstates", R.state_key("%s:%s:%s:%s" % (cid, nat, kind, vol), amounts))
+                sh.add_to_set("hdepth", len(h))
+                for t in R.history_tags(amounts0, h):
+                    if t.startswith("last:"):
+                        sh.count("history:" + t)
+                if bad:
+                    sh.fail(bad)
+                _restore()
+                if len(h) == 2 and len(sh.samples) < 1:
+                    sh.sample(dict(composite=cid, natural=nat, kind=kind, value=value, volume=vol, history=h))
+        return sh
+    _, cid, nat = desc
     for c in _cases(cid, nat):
         bad = check_case(*c)
         sh.evaluations += 1
@@ -251,6 +321,8 @@ def run_shard(desc):
 def replay(rec):
     c = rec["case"]
     try:
+        if "history" in c:
+            return check_history(c["composite"], c["natural"], c["kind"], c["value"], c["volume"], c["history"])[0]
         return check_case(c["composite"], c["natural"], c["kind"], c["value"], c["unit"], c["volume"], c["vunit"])
     finally:
         _restore()
@@ -266,7 +338,18 @@ def finish(total, tier, seed):
         raise HarnessError("vacuous run: volume alphabet")
     if not any(k.endswith(":ok") for k in h):
         raise HarnessError("no case at all satisfied the relations - broken oracle or broken library")
+    for key in ("add-existing", "add-new"):
+        if not h.get("history:last:" + key):
+            raise HarnessError("vacuous run: no history ends with " + key)
+    hstates = total.sets.get("hstates", set())
+    total.states = len(hstates)
+    total.max_depth = max(total.sets.get("hdepth", {0}))
     return dict(
+        states=len(hstates), transitions=total.transitions, traces_validated_against_impl=total.traces,
+        max_depth=total.max_depth,
+        history_bounds=dict(starts=HIST_STARTS, operations=HIST_OPS, given=HIST_GIVEN, volume_l=HIST_VOLUMES,
+                            depth=HDEPTH[tier], isotope_modes=["natural", "abundant"],
+                            pruning="none (every history executed)"),
         bounds=dict(composites=sorted(COMPOSITES), mass_density_g_cm3=RHO_VALUES, mass_density_units=list(RHO_UNITS),
                     number_density_cm3=N_VALUES, number_density_units=list(N_UNITS), volume_l=V_VALUES,
                     volume_units=list(V_UNITS), isotope_modes=["natural", "abundant"]),
@@ -280,7 +363,9 @@ MANIFEST = dict(
          "components) x given mass density (3 values x 3 unit spellings) or number density (3 values x 2 spellings) x "
          "volume (none, 2 values x 3 spellings) x both isotope modes = 2940 cases, complete in both tiers. Checked: the "
          "given density is kept, rho = n M_formula, rho = sum n_i m_i, n_i = amount_i n, sum rho_i = rho, M = rho V, "
-         "sum M_i = M (rel 1e-10) and independence of the unit spelling (rel 1e-12).",
+         "sum M_i = M (rel 1e-10) and independence of the unit spelling (rel 1e-12). The same relations after every "
+         "history of <= 2 (thorough 3) add() calls {existing first / last, new component} on 6 live composites x given "
+         "rho / n x with / without volume x both isotope modes.",
     note="Trusted: component masses reported by the object (C10), the Dalton row of the unit table, exact decimal "
          "factors between the unit spellings. Not covered: N column, avg row, both densities given, in-place "
          "conversion of the caller's Quantity objects.",
